@@ -82,8 +82,10 @@ type bitEval struct {
 	load func(ssa.Value) (bits, bool) // loads of b[k]
 	// byteAt: the k-th byte of the slice value base (for binary.BigEndian.UintN(base))
 	byteAt func(base ssa.Value, k int) (bits, bool)
-	memo   map[ssa.Value]bits
-	err    string
+	// call: value of a call the client can describe (inlined helper)
+	call func(*ssa.Call) (bits, bool)
+	memo map[ssa.Value]bits
+	err  string
 }
 
 func typeWidth(t types.Type) int {
@@ -190,6 +192,12 @@ func (e *bitEval) of(v ssa.Value) bits {
 				if okAll {
 					break
 				}
+			}
+		}
+		if e.call != nil {
+			if b, ok := e.call(x); ok {
+				out = b
+				break
 			}
 		}
 		return unknown("call outside the bit domain")
@@ -1034,4 +1042,28 @@ func viewContract(p *Prog, rg *Range, fn *ssa.Function, bParam ssa.Value, prefix
 		okL, detail = false, "no success or no failure return"
 	}
 	return
+}
+
+// c19AsSubRule evaluates the rules of C19 and files one obligation per rule
+// under `rule` of report r (used by the properties whose wire formats carry
+// QUIC-varint length prefixes).
+func c19AsSubRule(p *Prog, r *Report, rule string) {
+	sub := NewReport("C19", r.Tier)
+	sub.curConfig = r.curConfig
+	c19(p, sub)
+	bad := map[string]string{}
+	n := map[string]int{}
+	for _, o := range sub.Obs {
+		n[o.Rule]++
+		if o.Status != Discharged && bad[o.Rule] == "" {
+			bad[o.Rule] = o.Key + ": " + o.Detail + " at " + o.Pos
+		}
+	}
+	for _, name := range sub.ruleOrder {
+		ri := sub.Rules[name]
+		if n[name] < ri.Expected && bad[name] == "" {
+			bad[name] = fmt.Sprintf("rule matched %d instances < %d", n[name], ri.Expected)
+		}
+		r.Check(bad[name] == "", rule, "quicwire: "+name, "quicwire/wire.go", fmt.Sprintf("%d obligations discharged", n[name]), bad[name])
+	}
 }
